@@ -5,7 +5,8 @@ from .. import core, lmm
 class C18(core.Prop):
     id = "C18"
     drivers = ["lmm_driver"]
-    sizes = {"quick": 3000, "thorough": 60000}
+    technique = "stateful property-based testing: concurrency invariants checked on internal state after every operation, plus SimGrid own check_concurrency()"
+    sizes = {"quick": 15000, "thorough": 400000}
     rule = ("C15 histories with concurrency limits 1..4 on most constraints and many enable/suspend/free operations. After EVERY operation: the "
             "constraint's counter equals the number of enabled elements counting towards the limit (weight>=1) and is <= the limit; a variable that "
             "wants to run is either enabled or staged, never both, a suspended one is neither; every staged variable has a resource with no free slot. "
